@@ -265,7 +265,7 @@ def _read_attributes_section(
     attributes = []
     block, new_offset = _read_block_items(docstring, offset=offset, **options)
 
-    annotation: str | Expr | None = None
+    annotation: str | Expr | None
     for line_number, attr_lines in block:
         try:
             name_with_type, description = attr_lines[0].split(":", 1)
@@ -283,6 +283,7 @@ def _read_attributes_section(
             annotation = parse_docstring_annotation(annotation, docstring)
         else:
             name = name_with_type
+            annotation = None
             with suppress(AttributeError, KeyError, TypeError):
                 # Use subscript syntax to fetch annotation from inherited members too.
                 annotation = docstring.parent[name].annotation  # type: ignore[index]
